@@ -499,6 +499,15 @@ def rule_r9(prog, res) -> None:
         raise AnalysisError(f"C12.R9: only {n} metadata fields found in the computing constructor, minimum 3")
 
 
+def rule_r10(prog, res) -> None:
+    """the patch guards are evaluated on the catalogs at hand, every time: no memo of an earlier verdict (a catalog can
+    be re-created in place under the same cache directory with other centres; a remembered "aligned" then lets a
+    misaligned pair through)"""
+    from .common import memo_rule
+
+    memo_rule(prog, res, "C12.R10", lambda f: f.module.name.startswith(("yaw.correlation.measurements", "yaw.catalog.catalog", "yaw.catalog.patch")), "the verdict of a patch guard is reused for catalogs that have changed since")
+
+
 RULES = [
     ("C12.R1", rule_r1, QUICK),
     ("C12.R2", rule_r2, QUICK),
@@ -509,4 +518,5 @@ RULES = [
     ("C12.R7", rule_r7, QUICK),
     ("C12.R8", rule_r8, QUICK),
     ("C12.R9", rule_r9, QUICK),
+    ("C12.R10", rule_r10, QUICK),
 ]
